@@ -9,7 +9,7 @@ const SPEC: Spec = Spec {
         "moduli/bases/exponents come from the stated finite families built around the branch points (odd/even modulus, base longer than modulus, zero 4-bit windows, zero low exponent digits, top digit 1/3/2^63/2^64-1)",
         "refint modpow/gcd (shift-subtract division) is trusted; cross-checked against Python pow()/gcd on a transcript slice",
     ],
-    bounds_quick: "P1 moduli Dense(S8,2)+40 three-digit x ~35 bases per modulus x 25 exponents (<= 3 digits); P2 BigInt sign pairs on every 2nd modulus x 20 bases x 25 exponents; P3 panic clauses; I1 all (b,m) in [-200,200]^2; I2 Dense(S8,3)xDense(S8,2) x 4 sign pairs; I3 zero modulus; P5 exponents of 17/34/40 digits (up to 2560 bits) x 6 small moduli x 3 shapes, moduli of 33/40 digits (odd and even) x 3 base/exponent shapes, BigUint and negative BigInt forms",
+    bounds_quick: "P1 moduli Dense(S8,2)+40 three-digit x ~35 bases per modulus x 25 exponents (<= 3 digits); P2 BigInt sign pairs on every 2nd modulus x 20 bases x 25 exponents; P3 panic clauses; I1 all (b,m) in [-200,200]^2; I2 Dense(S8,3)xDense(S8,2) x 4 sign pairs; I3 zero modulus; P5 exponents of 17/34/40 digits (up to 2560 bits) x 6 small moduli x 3 shapes, moduli of 33/40 digits (odd and even) x 3 base/exponent shapes, BigUint and negative BigInt forms; P6 every modulus of Dense(S16,2) x 20 bases x 6 exponents (half-digit alphabet)",
     bounds_thorough: "P1 moduli as quick + all 3-digit Dense(S8,3) + 72 patterned 4/5/8-digit moduli (odd and even) x ~35 bases x 25 exponents; P2 all moduli x 40 bases x 25 exponents x 4 sign pairs; P3; I1 [-1000,1000]^2; I2 Dense(S8,4)xDense(S8,2) x 4 sign pairs; I3; P5 exponents and moduli up to 130 digits",
     hang_secs: 120,
     probes: Some(probes),
@@ -220,6 +220,28 @@ fn body(ctx: &mut Ctx) {
                     ctx.sample(|| format!("dense LCG modulus of {} digits ({}), bases of 4 lengths, exponents of 1..3 digits", lm, if odd { "odd" } else { "even" }));
                 }
             }
+        }
+    }
+    // ---- P6 half-digit value structure: every 1- and 2-digit modulus over the 16-letter alphabet x bases over it x a few exponents
+    if ctx.space("P6") {
+        let mods: Vec<Vec<u64>> = alpha::dense(&alpha::SIGMA16, 2).into_iter().filter(|d| !d.is_empty()).collect();
+        let bases: Vec<Vec<u64>> = alpha::dense(&alpha::SIGMA16, 1).into_iter().chain([vec![alpha::M, alpha::M], vec![0x1_0000_0000, 0xffff_ffff_0000_0000], vec![1, 0, 1]]).collect();
+        let exps: Vec<Vec<u64>> = vec![vec![2], vec![3], vec![0x11], vec![0xffff_ffff], vec![alpha::M], vec![0x1_0000_0001, 1]];
+        for (i, md) in mods.iter().enumerate() {
+            if !ctx.mine(i as u64) {
+                continue;
+            }
+            let m = Nat::from_digits(md);
+            let bm = bu_nat(&m);
+            for bd in &bases {
+                let b = Nat::from_digits(bd);
+                let bb = bu_nat(&b);
+                for ed in &exps {
+                    let e = Nat::from_digits(ed);
+                    modpow_case(ctx, &b, &e, &m, &bb, &bu_nat(&e), &bm);
+                }
+            }
+            ctx.sample(|| format!("m={} x {} bases x {} exponents (16-letter half-digit alphabet)", m.to_hex(), bases.len(), exps.len()));
         }
     }
     // ---- P5 long exponents (thousands of exponent bits) and long moduli
